@@ -520,7 +520,7 @@ class World:
     def shadow_apply(self, sh, ev, exp):
         """Shadow semantics: same event through the same entry point (C10, C16 compare
         routes, not entry points). C12 overrides this with single adds."""
-        if self.cfg.get("shadow_single_adds"):
+        if self.cfg.get("shadow_single_adds") and not ev.get("same_route"):
             if self.fam == "hll":
                 for k, _ in exp:
                     sh.add(k)
@@ -708,6 +708,10 @@ class World:
             if ev.get("own_args", True) and hasattr(n.primary, "args"):
                 args = n.primary.args
             v = api("attach", boot.SK.helpers.attach_shared_memory, st, args, shm.name)
+        elif ev.get("how") == "shared_view":
+            v = make_sketch(self.cfg, shared=True)
+            v._dsim_own_segment = v.shm.name
+            api("attach", v.attach_existing_shm, shm.name)
         else:
             v = make_sketch(self.cfg, shared=False)
             api("attach", v.attach_existing_shm, shm.name)
@@ -723,10 +727,11 @@ class World:
         k = ev.get("k", 0) % len(n.views)
         name = n.primary.shm.name if getattr(n.primary, "shm", None) is not None else None
         v = n.views.pop(k)
+        own = getattr(v, "_dsim_own_segment", None)
         t0 = boot.CLOCK.now
         del v
         gc.collect()
-        return {"node": ev["node"], "shm_name": name, "slept": boot.CLOCK.now - t0}
+        return {"node": ev["node"], "shm_name": name, "slept": boot.CLOCK.now - t0, "view_own": own}
 
     def op_drop_owner(self, ev):
         """Drop the owner (views first or owner first), then the node restarts empty."""
